@@ -972,7 +972,7 @@ def run(tier, seed, model_ok, translator, search=False):
                 "non-trivial = at least one table with a column; distinct by sheet map and settings")
     rng = make_rng(seed, "C09")
     thorough = tier == "thorough"
-    n_cases = (2000 if thorough else 150) if not search else 500
+    n_cases = (2000 if thorough else 120) if not search else 500
     tmp = tempfile.mkdtemp(prefix="c09-")
     ops, pend = [], []
     try:
